@@ -8,7 +8,7 @@ import tempfile
 
 from . import core
 
-NCASES = 25
+NCASES = 26
 
 
 def spec(compiler="g++"):
